@@ -62,7 +62,7 @@ def design_level(out, tier):
             res = []
             # (the unprovable variant ThrottleProofNoCap.tla is kept in spec/tlaps for the reader: running it sends the back
             #  ends on a long search, so it is not part of the check)
-            for mod, want in (('ThrottleProof.tla', True),):
+            for mod, want in (('ThrottleProof.tla', True), ('AveragerProof.tla', True)):
                 shutil.copy(os.path.join(SPEC, 'tlaps', mod), d)
                 from ..tlc import run_group
                 rc_, stdout_ = run_group([tlapm, '--cleanfp', mod], d, 600)
